@@ -96,6 +96,12 @@ CHECKS = {
         "no memoisation decorator anywhere; IBAN/BIC/BBAN store attributes only during construction; registry writers are only called at module level.",
    note="Library model: pycountry, re are history-independent.",
    design="3/C15"),
+ "C12": dict(
+   technique="evaluation of the lookup functions by the abstract evaluator against registry models (synthetic branch-covering registry + bundled data) compared with the statement; writer/reader agreement of index names and key order on the call sites",
+   text="candidates_from_bank_code, from_bank_code, the reverse lookups and the IBAN-level bic/bank/name accessors are evaluated on a synthetic registry that exercises every branch of the selection rule and on the bundled registry "
+        "(quick: all kinds of keys via a seeded sample of 210 keys incl. multi-candidate ones and 60 BICs; thorough: all 22 753 keys and 7 769 BICs) and must equal the registry's own lists, the selection rule, invertibility and the None case.",
+   note="Indexes are built by the checker's builder from the tree's build_index call arguments (build_index itself is validated in C18). Registry contents beyond the two models are covered through branch coverage only.",
+   design="3/C12"),
 }
 NA_REASON = "check not built yet (work in progress; see DESIGN.md section 3 for the plan)"
 
